@@ -376,6 +376,61 @@ def class_level_writes(repo):
     return out
 
 
+SHARED_OBJECT_CLASSES = [('musicxml/xsd/xsdattribute.py', 'XSDAttribute'), ('musicxml/xsd/xsdtree.py', 'XSDTree')]
+
+
+def provisional_publications(repo):
+    """Objects of these classes hang off class-level tables and are therefore shared by all threads; their lazily
+    cached fields must be written with the *final* value in one assignment. Reported: (file, class, function, field)
+    where some path through the function assigns `self.<field>` more than once (a provisional value would be visible
+    to another thread between the two assignments)."""
+    from collections import Counter
+
+    def counts(stmts):
+        total = Counter()
+        for st in stmts:
+            if isinstance(st, (ast.Assign, ast.AugAssign, ast.AnnAssign)):
+                tg = st.targets if isinstance(st, ast.Assign) else [st.target]
+                for t in tg:
+                    for n in (t.elts if isinstance(t, (ast.Tuple, ast.List)) else [t]):
+                        if isinstance(n, ast.Attribute) and isinstance(n.value, ast.Name) and n.value.id == 'self':
+                            total[n.attr] += 1
+            elif isinstance(st, ast.If):
+                a, b = counts(st.body), counts(st.orelse)
+                for k in set(a) | set(b):
+                    total[k] += max(a.get(k, 0), b.get(k, 0))
+            elif isinstance(st, (ast.For, ast.While)):
+                a = counts(st.body)
+                for k in a:
+                    total[k] += 2 * a[k]
+            elif isinstance(st, ast.Try):
+                a = counts(st.body)
+                hs = [counts(h.body) for h in st.handlers] + [counts(st.orelse)]
+                keys = set(a)
+                for h in hs:
+                    keys |= set(h)
+                for k in keys:
+                    total[k] += max([a.get(k, 0)] + [h.get(k, 0) for h in hs])
+                for k, v in counts(st.finalbody).items():
+                    total[k] += v
+            elif isinstance(st, ast.With):
+                for k, v in counts(st.body).items():
+                    total[k] += v
+        return total
+
+    out = []
+    for rel, cname in SHARED_OBJECT_CLASSES:
+        tree = ast.parse(src(repo, rel))
+        for c in ast.walk(tree):
+            if isinstance(c, ast.ClassDef) and c.name == cname:
+                for f in c.body:
+                    if isinstance(f, ast.FunctionDef) and f.name != '__init__':
+                        for k, v in sorted(counts(f.body).items()):
+                            if v >= 2:
+                                out.append((rel, cname, f.name, k))
+    return out
+
+
 def class_mutables(repo):
     """class-body attributes initialised with a mutable container (candidates for state shared by all
     instances / all threads), outside the generated element/type classes' docstring-only bodies"""
@@ -441,7 +496,8 @@ def main(repo, out_json, out_lean):
     sites = open_sites(repo)
     clsw = class_level_writes(repo)
     cmut = class_mutables(repo)
-    data = {'write_prog': wp, 'lazy_complex': lp1, 'lazy_group': lp2, 'open_sites': sites, 'class_level_writes': clsw, 'class_mutables': cmut}
+    prov = provisional_publications(repo)
+    data = {'provisional_publications': prov, 'write_prog': wp, 'lazy_complex': lp1, 'lazy_group': lp2, 'open_sites': sites, 'class_level_writes': clsw, 'class_mutables': cmut}
     json.dump(data, open(out_json, 'w'), indent=1)
 
     def eff(e):
@@ -480,6 +536,9 @@ def main(repo, out_json, out_lean):
          '/-- class-body attributes initialised with a mutable container (file, class, attribute) -/',
          'def classMutables : List (String × String × String) := [' + ', '.join(
              '(%s, %s, %s)' % (lean_str(a), lean_str(b), lean_str(c)) for a, b, c in cmut) + ']',
+         '/-- fields of objects shared through class-level tables that some function assigns twice on one path (file, class, function, field) -/',
+         'def provisionalPublications : List (String × String × String × String) := [' + ', '.join(
+             '(%s, %s, %s, %s)' % (lean_str(a), lean_str(b), lean_str(c), lean_str(d)) for a, b, c, d in prov) + ']',
          'end Gen', '']
     text = '\n'.join(L)
     try:
